@@ -87,3 +87,27 @@ Definition flag_spec_bits : list (string * Z) :=
     ("Supplementary"%string, 11%Z) ].    (* 0x800 supplementary alignment *)
 
 Definition flag_spec_names : list string := map fst flag_spec_bits.
+
+(* Tactic for non-vacuity Examples: [sam_ok o r] for a CLOSED oracle and record.
+   Only closed goals are put under vm_compute: normalising [int64 z] for a bound
+   variable z (inside [tag_ok o] taken as a function) builds a decision tree of
+   exponential size (it exhausts memory). *)
+Ltac sam_ok_example :=
+  lazymatch goal with
+  | |- sam_ok ?o ?r =>
+    let T := fresh "T" in
+    let l := eval vm_compute in (s_tags r) in
+    assert (T : Forall (tag_ok o) l);
+    [ repeat (apply Forall_cons;
+              [ split; [ vm_compute; repeat constructor
+                       | vm_compute; repeat constructor; try discriminate; intuition discriminate ] | ]);
+      apply Forall_nil
+    | constructor;
+      [ .. | exact T
+        | vm_compute;
+          repeat (apply NoDup_cons;
+                  [ cbn [In]; let H := fresh "H" in intros H;
+                    repeat (destruct H as [H|H]; [discriminate H|]); exact H | ]);
+          apply NoDup_nil ];
+      vm_compute; repeat constructor; discriminate ]
+  end.
